@@ -664,6 +664,73 @@ def r11_12(run):
     run.ob('R11.12', ds, ds.node, 'bulk publications examined', True)
 
 
+def _unset_decision(t, lab):
+    """did taking edge `lab` of test atom t establish "Tor reported no value" (comparison with the unset marker, '' or 'auto')?"""
+    if not (isinstance(t, ast.Compare) and len(t.ops) == 1):
+        return False
+    c = t.comparators[0]
+    marks = [c] + (list(c.elts) if isinstance(c, (ast.List, ast.Tuple)) else [])
+    if not any(dotted(m) == 'DEFAULT_VALUE' or const(m) in ('', 'auto') for m in marks):
+        return False
+    if isinstance(t.ops[0], (ast.Eq, ast.Is, ast.In)):
+        return lab == 'T'
+    if isinstance(t.ops[0], (ast.NotEq, ast.IsNot, ast.NotIn)):
+        return lab == 'F'
+    return False
+
+
+def r11_13(run):
+    """bootstrap, per GETCONF answer: on every path from the answer to the store into the view on which no test found the option
+    unset, what is stored is computed from the answer (a forward dependency walk along the path: an assignment whose right side
+    mentions a dependent name makes its targets dependent, any other assignment clears them)."""
+    ds = CU(run, '_do_setup')
+
+    def may_raise(node):
+        for x in (ast.walk(node) if not isinstance(node, (ast.If, ast.For, ast.While, ast.Try, ast.With)) else ()):
+            if isinstance(x, ast.Subscript) and isinstance(x.ctx, ast.Load) and isinstance(x.value, ast.Name):
+                return ['KeyError']
+        return None
+    g = cfg_of(ds, may_raise=may_raise)
+    stores = set(g.nodes_where(lambda n: n.kind == 'stmt' and isinstance(n.ast, ast.Assign) and
+                               any(isinstance(t, ast.Subscript) and dotted(t.value) == 'self.config' for t in n.ast.targets)))
+    ans = []
+    for n in g.real_nodes():
+        if n.kind == 'stmt' and isinstance(n.ast, ast.Assign) and isinstance(n.ast.value, (ast.Yield, ast.Await)) and isinstance(n.ast.value.value, ast.Call) \
+                and callee_attr(n.ast.value.value) == 'get_conf' and len(n.ast.targets) == 1 and isinstance(n.ast.targets[0], ast.Name):
+            ans.append(n)
+    run.floor('R11.13', 'GETCONF answers in _do_setup', len(ans), 2)
+    k = 0
+    for a in ans:
+        vname = a.ast.targets[0].id
+        for p_ in g.paths(start=a, stop=lambda n: n in stores or n.kind == 'iter', loop_bound=1):
+            run.paths_enumerated += 1
+            last = p_.last
+            if last not in stores:
+                continue
+            dep = set([vname])
+            unset = False
+            for n, lab in p_.steps[1:-1]:
+                if n.kind == 'test' and _unset_decision(n.ast, lab):
+                    unset = True
+                if n.kind == 'stmt' and isinstance(n.ast, (ast.Assign, ast.AugAssign)) and lab != 'exc':
+                    tg = [x.id for t in (n.ast.targets if isinstance(n.ast, ast.Assign) else [n.ast.target]) for x in ast.walk(t)
+                          if isinstance(x, ast.Name) and isinstance(x.ctx, ast.Store)]
+                    reads = set(x.id for x in ast.walk(n.ast.value) if isinstance(x, ast.Name))
+                    if reads & dep:
+                        dep.update(tg)
+                    elif isinstance(n.ast, ast.Assign):
+                        dep.difference_update(tg)
+            if unset:
+                continue
+            k += 1
+            used = set(x.id for x in ast.walk(last.ast.value) if isinstance(x, ast.Name))
+            run.ob('R11.13', ds, last.ast, 'what the view stores for a set option is computed from Tor\'s answer', bool(used & dep),
+                   slot='answer-stored:%s' % src(last.ast.targets[0]),
+                   message='_do_setup stores %s, which does not depend on the GETCONF answer %s, on %s: the view reports something else than Tor\'s value'
+                           % (src(last.ast.value)[:50], vname, p_.describe(8)))
+    run.floor('R11.13', 'answer-to-store paths on which the option is set', k, 3)
+
+
 def r11_6(run):
     us = [CU(run, '_do_setup'), CU(run, '_get_defaults'), run.idx.find_method(TC(run), 'from_protocol')]
     k = dropped_deferreds(run, 'R11.6', [u for u in us if u is not None], 'the configuration bootstrap')
@@ -677,6 +744,7 @@ RULES = [
     ('R11.10', 'parse_keywords keeps every value of a repeated key in both line modes (R13.3 borrowed; CONF_CHANGED uses the one-line mode)', r11_10),
     ('R11.11', 'forward must-be-list analysis: every _ListWrapper(x, ...) in TorConfig gets a flat list on every path', r11_11),
     ('R11.12', 'a change event is applied to every option it names; bootstrap answers are not published late in bulk', r11_12),
+    ('R11.13', 'bootstrap: on every answer-to-store path on which the option is set, the stored value depends on the GETCONF answer (path dependency walk)', r11_13),
     ('R11.6', 'no dropped Deferred in the configuration bootstrap (every GETCONF is awaited before the view is declared ready)', r11_6),
     ('R11.5', 'sibling agreement: default lookup + parse on the unset leg in _do_setup and _conf_changed; key-form agreement of list_parsers writers/reader', r11_5),
     ('R11.1', 'store-site typing: every value stored under a Tor option key that may be list-typed is a _ListWrapper (or excluded by a dominating test / copied from the wrapped pending set)', r11_1),
@@ -690,6 +758,8 @@ F = 'txtorcon/torconfig.py'
 MUTANTS = [
     M('event-skips-pending-options', F, "            real_name = self._find_real_name(k)\n            if real_name in self.list_parsers:", "            real_name = self._find_real_name(k)\n            if real_name in self.unsaved:\n                continue\n            if real_name in self.list_parsers:", ['R11.12']),
     M('single-default-line-as-str', F, "                    parsed = defaults.get(rn, [])\n                    if not isinstance(parsed, list):\n                        parsed = [parsed]  # just one default line\n", "                    parsed = defaults.get(rn, [])\n", ['R11.11']),
+    M('port-list-answer-dropped', F, "                    initial = [self.parsers[rn].parse(x) for x in v]\n", "                    pass\n", ['R11.13']),
+    M('scalar-answer-dropped', F, "                else:\n                    parsed = self.parsers[rn].parse(v)\n                self.config[rn] = parsed", "                else:\n                    parsed = DEFAULT_VALUE\n                self.config[rn] = parsed", ['R11.13']),
     M('port-values-nested', F, "                elif isinstance(v, list):\n                    initial = [self.parsers[rn].parse(x) for x in v]\n                else:", "                else:", ['R11.11']),
     M('saved-string-stays-string', F, "                if real_name in self.list_parsers and not isinstance(value, list):\n                    value = [value]\n", "", ['R11.1']),
     M('empty-list-gets-defaults', F, "                parsed = self.parsers[rn].parse(v)\n                if parsed == [DEFAULT_VALUE]:\n                    parsed = defaults.get(rn, [])", "                if v == '' or v == DEFAULT_VALUE:\n                    parsed = defaults.get(rn, [])\n                else:\n                    parsed = self.parsers[rn].parse(v)", ['R11.5']),
